@@ -2,9 +2,9 @@
 from props import mmr_common as mc
 
 ID = "C12"
-GEN_TAGS = []
+GEN_TAGS = ["MmrIndexGen"]
 PROOF_TARGETS = ["proofs/MmrProofs.vo", "proofs/MmrSmall.vo", "proofs/MmrUpdates.vo", "proofs/MmrBatch.vo", "proofs/MmrHistory.vo", "proofs/MmrSuccRej.vo",
-                 "proofs/MmrAppend.vo", "proofs/MmrSuccComplete.vo"]
+                 "proofs/MmrAppend.vo", "proofs/MmrSuccComplete.vo", "proofs/MmrIdxTie.vo"]
 PROPS_FILE = "props/C12.v"
 EXTRA_PROPS_FILES = ["props/C12b.v"]
 EXTRACT = "extract/ExtractMmr.vo"
@@ -17,7 +17,7 @@ RUN_TIMEOUT = {"quick": 600, "thorough": 3000}
 TRUSTED = [
     "Coq 8.16.1 kernel and its bytecode VM (vm_compute for the concrete refutation witnesses and small-scope checks); no native_compute",
     "coq/lib/Word.v (count_ones, leading_zeros) as the meaning of the Rust bit-counting intrinsics",
-    "hand-written model coq/model/Mmr.v + MmrIdxLocal.v of mmr_successor_proof.rs / shared_basic.rs / shared_advanced.rs, tied to the code only by the correspondence check (nothing of C12 is machine-translated)",
+    "hand-written model coq/model/Mmr.v of mmr_successor_proof.rs / shared_basic.rs (calculate_new_peaks_from_append), tied to the code only by the correspondence check; its index functions (coq/model/MmrIdxLocal.v) are PROVED equal, on all u64 arguments including the panic outcome, to the functions of gen/MmrIndexGen.v (regenerated from shared_basic.rs / shared_advanced.rs on every run) and the loops of model/MmrIndex.v around them (C12_index_functions_regenerated in props/C12b.v, proofs/MmrIdxTie.v)",
     "extraction: ExtrOcamlBasic + ExtrOcamlZBigInt, Z.pow mapped to zarith's power function, OCaml 4.13.1, zarith 1.12",
     "correspondence harness harness/src/bin/mmr.rs (its shadow forest names every digest by the term it is the Tip5 evaluation of), oracle driver ocaml/mmr.ml, case generator tools/props/c12.py",
     "free hash: distinct terms are assumed to have distinct Tip5 evaluations (a collision could only cause a spurious mismatch) and distinct 61-bit fingerprints",
@@ -25,6 +25,7 @@ TRUSTED = [
 ]
 ASSUMPTIONS = [
     "leaf counts < 2^63 for proof generation (the documented domain of new_from_batch_append); verification is modelled for all u64 counts",
+    "`complete` is proved in general (props/C12b.v: C12_complete for every leaf list and every list of appended leafs with fewer than 2^63 leafs in total, generation never panics, rejection corollaries around the honest proof); C12_complete_small_partial of props/C12.v is superseded but kept",
     "arithmetic overflow is modelled as a panic (checked build); a release build would wrap - only reachable for counts >= 2^63",
     "a peak list of 2^32 or more digests makes `len().try_into::<u32>().unwrap()` panic: the totality theorem carries length < 2^32",
     "the model of verify is sp_verify_v1 (with the rejection of an old accumulator whose peak count differs from count_ones, /repo dfe5f25); sp_verify_v0 (without it) is kept only for the historical refutation lemmas; a return of the v0 behaviour (panic / acceptance) is a VIOLATION",
